@@ -3,10 +3,12 @@
 use crate::run::Property;
 
 pub mod common;
+pub mod c07;
 pub mod c08;
 pub mod c09;
 pub mod c10;
 pub mod types;
+pub mod c11;
 pub mod c12;
 pub mod c13;
 pub mod c14;
@@ -16,7 +18,7 @@ pub mod c17;
 pub mod c18;
 
 pub fn all() -> Vec<Property> {
-    vec![c08::property(), c09::property(), c10::property(), c12::property(), c13::property(), c14::property(), c15::property(), c16::property(), c17::property(), c18::property()]
+    vec![c07::property(), c08::property(), c09::property(), c10::property(), c11::property(), c12::property(), c13::property(), c14::property(), c15::property(), c16::property(), c17::property(), c18::property()]
 }
 
 pub fn find(id: &str) -> Option<Property> {
